@@ -184,6 +184,12 @@ WITNESS_NONE = "IDPAIR %s | %s" % (genb.show_bundle(W3), genb.show_bundle(W4))
 def corpus():
     out = [pair_line(W1, W2), pair_line(W2, W1), pair_line(W3, W4), pair_line(W1, W1), pair_line(W2, W2)]
     out.append(pair_line(mk(("DTN", 1, b"//n/a-5"), 1, 2), mk(("DTN", 1, b"//n/a"), 5, 1)))            # both non-fragments: no collision
+    # long source texts that agree on a long prefix (250..300 characters) and differ only behind it: the whole source is part of the ID
+    for L in (20, 240, 247, 248, 249, 250, 256, 300, 1000):
+        a, c = ("DTN", 1, b"//" + b"n" * L + b"/a"), ("DTN", 1, b"//" + b"n" * L + b"/c")
+        out.append(pair_line(mk(a, 7, 9), mk(c, 7, 9)))
+        out.append(pair_line(mk(a, 7, 9, frag=True, off=3), mk(c, 7, 9, frag=True, off=3)))
+        out.append("IDREF 0 0 " + genb.show_bundle(mk(a, 7, 9, rpt=("DTN", 1, b"//r/"), cs=[dict(type=1, num=1, flags=0, crc=("N",), data=("DATA", b"x"))])))
     out.append(pair_line(mk(("DTN", 1, b"//n/a"), 51, 2), mk(("DTN", 1, b"//n/a"), 5, 12)))            # 51-2 vs 5-12
     out.append(pair_line(mk(("IPN", 2, 1, 2), 3, 4), mk(("IPN", 2, 1, 23), 4, 4)))
     out.append(pair_line(mk(("IPN", 2, 1, 2), 3, 4, frag=True, off=0), mk(("IPN", 2, 1, 2), 3, 4)))    # fragment offset 0 vs non-fragment
